@@ -15,6 +15,7 @@ import (
 	"strconv"
 	"strings"
 	"sync"
+	"sync/atomic"
 	"testing"
 	"time"
 )
@@ -234,6 +235,16 @@ type Witness struct {
 // failure mode; a signature listed as known: in known_findings.txt is downgraded
 // to KNOWN-FINDING. Each signature is reported once per run.
 func (r *Run) Violation(caseID, sig, what string, detail any) {
+	// monitors report a wait that exceeded the watchdog, and harness failures, as problems
+	// with these reserved signatures: they are never violations (see Finish)
+	switch sig {
+	case "INCONCLUSIVE":
+		r.Inconclusive(caseID + ": " + what)
+		return
+	case "HARNESS":
+		r.Fatal(caseID + ": " + what)
+		return
+	}
 	r.mu.Lock()
 	defer r.mu.Unlock()
 	r.violCount++
@@ -309,6 +320,18 @@ func sanitize(s string) string {
 // non-triviality criterion; minNontrivial is the least number of distinct
 // non-trivial cases for the run to count as having observed anything.
 func (r *Run) Finish(rule string, minNontrivial int, exhaustive bool) {
+	if n := watchdogs.Load(); n > 0 {
+		first, _ := watchdogFirst.Load().(string)
+		if HangClassifier != nil {
+			if ok, sig, desc := HangClassifier(); ok {
+				r.Violation("hang", "server-wedged:"+sig, fmt.Sprintf("%d request(s) were never answered (first: %s; %d remaining cases skipped) and, with nothing of the harness running any more, the code under test is permanently blocked: %s", n, first, skippedOnHang.Load(), desc), nil)
+			} else {
+				r.Inconclusive(fmt.Sprintf("%d request(s) exceeded the watchdog (first: %s; %d remaining cases skipped) without a proven permanent block: %s", n, first, skippedOnHang.Load(), desc))
+			}
+		} else {
+			r.Inconclusive(fmt.Sprintf("%d request(s) exceeded the watchdog (first: %s)", n, first))
+		}
+	}
 	r.mu.Lock()
 	defer r.mu.Unlock()
 	cov := map[string]any{
@@ -387,6 +410,29 @@ func (r *Run) Finish(rule string, minNontrivial int, exhaustive bool) {
 	}
 }
 
+// Watchdog bookkeeping for checks that run the code under test inside this process: the
+// transports (package drv) note every firing of their wait bound. Once a few have fired
+// the remaining jobs of Parallel are skipped (a wedged server would otherwise cost one
+// watchdog period per request), and Finish decides - when nothing of the harness runs any
+// more - whether the code under test is provably blocked for good (violation) or not
+// (inconclusive). Child-process checks do their own classification per workload.
+var (
+	watchdogs      atomic.Int64
+	watchdogFirst  atomic.Value // string
+	skippedOnHang  atomic.Int64
+	HangClassifier func() (proven bool, signature, description string)
+)
+
+// NoteWatchdog records that a wait on the code under test exceeded its bound.
+func NoteWatchdog(what string) {
+	if watchdogs.Add(1) == 1 {
+		watchdogFirst.Store(what)
+	}
+}
+
+// WatchdogsFired returns how many waits exceeded their bound in this process.
+func WatchdogsFired() int64 { return watchdogs.Load() }
+
 // Parallel runs fn(i) for i in [0,n) on workers goroutines.
 func Parallel(n, workers int, fn func(i int)) {
 	if workers < 1 {
@@ -399,6 +445,10 @@ func Parallel(n, workers int, fn func(i int)) {
 		go func() {
 			defer wg.Done()
 			for i := range ch {
+				if watchdogs.Load() >= 3 {
+					skippedOnHang.Add(1)
+					continue
+				}
 				fn(i)
 			}
 		}()
